@@ -22,7 +22,7 @@ checks = {
          "Every successful linearizable read names the exact prefix it saw (count, chain); it must cover every write acknowledged before its invocation, be a prefix of the applied history, and non-overlapping reads must not go backwards.",
          "no clock enters the verdict", "5/C05"),
  "C06": ("exploration", "log-matching chain map + per-request contract attributed by goroutine",
-         "Global (index,term)->prefix-hash map over every entry entering any disk-log shadow; every handled AppendEntries request is checked: reject => no mutation, accept => no change below prev, truncation only at a genuine conflict, no committed entry removed; commit index monotone per incarnation.",
+         "Global (index,term)->prefix-hash map over every entry entering any disk-log shadow; every handled AppendEntries request is checked: reject => no mutation, accept => the node holds (prev index, prev term), no change below prev, truncation only at a genuine conflict, no committed entry removed; commit index monotone per incarnation; directed cases with requests overlapping a snapshot installation that waits for an application in flight.",
          "storage events are attributed to the handler invocation running on the same goroutine", "5/C06"),
  "C07": ("exploration", "online check at the becameLeader boundary event against the committed-entry map",
          "At every leadership start the new leader's pre-append disk log must contain every entry for which commit evidence (Apply, LeaderCommit, CommitIndex sample) was recorded earlier; no later truncation may remove one.",
@@ -34,7 +34,7 @@ checks = {
          "Fault-injected cluster runs with snapshots on (threshold 4-30, payloads 0 B to 3.5 chunks, slow Snapshot/Apply/Restore profiles): label = content for every locally taken snapshot, replica state = canonical prefix after every Apply, Restore bytes = a completed snapshot with matching label and canonical content.",
          "the monitor state machine is an append-only hash chain, so a state names exactly one prefix of one history", "5/C10"),
  "C11": ("exploration", "puppet sweep of InstallSnapshot sequences with boundary probes; snapshot/compaction monitors on storage wrappers",
-         "Seed-determined InstallSnapshot request sequences (two source snapshots, 1-3 chunks, any order/duplication/offset, stale/higher terms, crash+restart) against a real node; oracles: installed bytes+label equal a source the sender had, applied/commit never decrease, no restore below applied, no committed entry beyond the label discarded, compaction/discard read-back, replication and vote probes answered as a node with the full log would.",
+         "Seed-determined InstallSnapshot request sequences (two source snapshots, 1-3 chunks, any order/duplication/offset, stale/higher terms, crash+restart) against a real node; oracles: installed bytes+label equal a source the sender had, applied/commit never decrease, no restore below applied, no committed entry beyond the label discarded, compaction/discard read-back, replication and vote probes answered as a node with the full log would; directed cases with requests overlapping an installation that waits for an application in flight.",
          "bounded puppet domain; cluster schedules with snapshots are added by the snapshot checks", "5/C11"),
  "C12": ("fault_enumeration", "strace-recorded syscall replay: crash image at every syscall boundary and write byte-prefix, reopened with the real code against a reference model",
          "Enumerates, for seed-determined API sequences on the real persistentLog, every crash point at syscall and byte granularity (process-death model), and checks reopen + read-back against a reference list model plus continued operation. Exhaustive over the crash points of each executed sequence, sampled over sequences.",
